@@ -315,8 +315,41 @@ fn main() {
                 }
             }
         }
+        "c11c" => {
+            // the real pool with FEWER threads than Jacobian columns (five parameters, two or
+            // three workers), to be run with a high preemption rate: several column tasks per
+            // worker, so that per-worker state (scratch slots, flags, cursors) is shared between
+            // columns and miri's scheduler can interleave their steps inside the library's own
+            // arithmetic; every parallel Jacobian must be bitwise the sequential one
+            rayon::ThreadPoolBuilder::new().num_threads(threads.min(3)).build_global().unwrap();
+            let pc = 5usize;
+            let nn = 7usize;
+            let xs = DVector::from_iterator(nn, (0..nn).map(|i| 0.3 + i as f64 * 0.7));
+            let ps: Vec<f64> = (0..pc).map(|k| 0.8 + 1.3 * k as f64 + rng.range(0.0, 0.4)).collect();
+            let ys = DVector::from_iterator(nn, (0..nn).map(|i| {
+                let mut v = 0.2;
+                for (k, t) in ps.iter().enumerate() {
+                    v += (1.0 + k as f64) * (-xs[i] / t).exp();
+                }
+                v + 0.01 * rng.range(-1.0, 1.0)
+            }));
+            let mk = |p: &Vec<f64>| Hand { x: xs.clone(), p: DVector::from_vec(p.clone()) };
+            let mut par = LevMarProblemBuilder::new_parallel(mk(&ps)).observations(ys.clone()).build().unwrap();
+            let mut seq = LevMarProblemBuilder::new(mk(&ps)).observations(ys.clone()).build().unwrap();
+            for round in 0..4 {
+                let v = DVector::from_vec(ps.iter().map(|t| t * (1.0 + 0.03 * round as f64)).collect::<Vec<f64>>());
+                par.set_params(&v);
+                seq.set_params(&v);
+                let (rp, jp) = observe(&par);
+                let (rs, js) = observe(&seq);
+                if rp != rs || jp != js {
+                    println!("MISMATCH parallel vs sequential (c11c, round {round})");
+                    bad = true;
+                }
+            }
+        }
         _ => {
-            eprintln!("usage: vpmiri c10|c10c|c11 <seed> [threads]");
+            eprintln!("usage: vpmiri c10|c10c|c11|c11c <seed> [threads]");
             std::process::exit(2);
         }
     }
